@@ -510,6 +510,10 @@ func tsCalls(toks []tsTok) []string {
 			continue
 		}
 		name := toks[j].text
+		switch name {
+		case "if", "while", "switch", "for", "function", "return", "catch", "constructor", "typeof":
+			continue
+		}
 		for j-2 >= 0 && toks[j-1].text == "." && toks[j-2].kind == "ident" {
 			name = toks[j-2].text + "." + name
 			j -= 2
